@@ -483,6 +483,12 @@ private theorem getRetries_incr (o : Orch) (id x : String) : o.getRetries x ≤ 
     · simp [AMap.get?_set_other _ _ _ _ h]
   · exact Nat.le_refl _
 
+/-- releasing waiters touches the two wait graphs only -/
+theorem foldl_releaseBoth_orch (l : List String) (w : World) : (l.foldl releaseBoth w).orch = w.orch := by
+  induction l generalizing w with
+  | nil => rfl
+  | cons x xs ih => simp only [List.foldl_cons]; rw [ih]; rfl
+
 /-- **Retries never decrease** under any operation other than a registration / a purge, and
     `increment_invocation_retries` of a known invocation adds exactly one. -/
 theorem retries_monotone (T : Table) (w : World) (op : Op) (h : Op.mayResetRetries op = false) (x : String) :
@@ -506,7 +512,9 @@ theorem retries_monotone (T : Table) (w : World) (op : Op) (h : Op.mayResetRetri
     case wait waiter ids =>
       simp only [Backends.step]
       split
-      · split <;> exact Nat.le_refl _
+      · split
+        · rw [foldl_releaseBoth_orch]; exact Nat.le_refl _
+        · exact Nat.le_refl _
       · exact Nat.le_refl _
     case retrieve =>
       simp only [Backends.step]
